@@ -171,8 +171,8 @@ Definition case_sig (c : case) : N :=
   let svc := c_svc c in
   let growing := ((k =? K_GROW) || (k =? K_DIED 7))%N in
   if prop_b c then 0%N
-  else if ((svc =? 19) && (k =? K_DIED 3))%N then SIG_SNMP_OOM
-  else if ((svc =? 14) && (k =? K_DIED 3))%N then SIG_LDAP_OOM
+  else if ((svc =? 19) && ((k =? K_DIED 3) || (k =? K_DIED 7)))%N then SIG_SNMP_OOM
+  else if ((svc =? 14) && ((k =? K_DIED 3) || (k =? K_DIED 7)))%N then SIG_LDAP_OOM
   else if ((svc =? 21)%N && growing && ssh_in_class c) then SIG_SSH_LOOP
   else if ((svc =? 13)%N && growing) then SIG_IPP_LOOP
   else if ((svc =? 24) && (k =? K_DIED 1))%N && (1 <=? maxN (map (fun k => vnc_verdict (stream_of k)) (c_conns c)))%N then SIG_VNC_PUSHER
